@@ -789,4 +789,24 @@ def bstrSegs (len : Nat) : List (Nat × Nat) → Nat → Outcome (List BSeg)
 def bstrUnmarshal (s : List Char) : Outcome (List BSeg) :=
   bstrSegs s.length (bstrMatches s (s.length + 1) 0) 0
 
+/-! ## GetRows: result accounting of the streaming reader -/
+
+/-- the loop of `GetRows` over the iterations of `rows.Next()`: each iteration delivers an empty or a
+non-empty row (`true`); state = (`len(results)`, `cur`, `maxVal`).  `make([][]string, emptyRows)` and the
+final `results[:maxVal]` are explicit. -/
+def getRowsLoop : List Bool → Nat → Int → Int → Outcome (Nat × Int)
+  | [], len, _, maxVal => .ok (len, maxVal)
+  | nonEmpty :: rest, len, cur, maxVal =>
+    let cur1 := cur + 1
+    if nonEmpty then
+      let emptyRows := cur1 - maxVal - 1
+      if emptyRows > 0 then getRowsLoop rest (len + emptyRows.toNat + 1) cur1 cur1
+      else getRowsLoop rest (len + 1) cur1 cur1
+    else getRowsLoop rest len cur1 maxVal
+
+/-- `GetRows`: number of rows returned (`results[:maxVal]`) -/
+def getRows (iters : List Bool) : Outcome Nat :=
+  (getRowsLoop iters 0 0 0).bind fun (len, maxVal) =>
+    if 0 ≤ maxVal ∧ maxVal ≤ (len : Int) then .ok maxVal.toNat else .panic
+
 end XlModel.Decode
